@@ -236,6 +236,12 @@ pub(super) trait DialectHandler: Any + Debug {
         false
     }
 
+    /// Whether the dialect has `INTERVAL n UNIT` literals. SQLite and T-SQL have none
+    /// (dates are shifted with functions there).
+    fn has_interval_literal(&self) -> bool {
+        true
+    }
+
     fn translate_sql_array(
         &self,
         elements: Vec<sqlparser::ast::Expr>,
@@ -426,6 +432,10 @@ impl DialectHandler for GlareDbDialect {
 }
 
 impl DialectHandler for SQLiteDialect {
+    fn has_interval_literal(&self) -> bool {
+        false
+    }
+
     // https://www.sqlite.org/lang_select.html#limitoffset: a negative LIMIT means "no upper bound"
     fn limit_for_bare_offset(&self) -> Option<&'static str> {
         Some("-1")
@@ -449,6 +459,10 @@ impl DialectHandler for SQLiteDialect {
 }
 
 impl DialectHandler for MsSqlDialect {
+    fn has_interval_literal(&self) -> bool {
+        false
+    }
+
     fn use_fetch(&self) -> bool {
         true
     }
